@@ -9,7 +9,8 @@
     (both enforced by the jsonschema tags of RetryPolicy). *)
 From EG.lib Require Import Base.
 From EG.model Require Import Retry.
-From EG.proofs Require Import RetryProofs.
+From EG.model Require Import RetryCheck.
+From EG.proofs Require Import RetryProofs RetryCheckProofs.
 Open Scope Z_scope.
 
 (** a failing call is attempted at most maxAttempts times; attempts are numbered 0..n-1;
@@ -136,6 +137,31 @@ Theorem C10_breaker_rejected : forall pl rq, pl_cb pl = true ->
   po_records (pool_handle pl false rq) = [].
 Proof. exact breaker_rejected. Qed.
 Print Assumptions C10_breaker_rejected.
+
+(** the decidable checker run as [prop] on the implementation's traces (group "retry")
+    accepts every behaviour of the model: all validated policies, scripts, cancellation
+    points, breaker modes (0 none, 1 closed, 2 forced open), draws, select resolutions *)
+Theorem C10_prop_checker_sound : forall p script cancel cb draws pick,
+  valid p -> cb = 0 \/ cb = 1 \/ cb = 2 ->
+  prop_retry (model_retry_case p script cancel cb draws pick) = true.
+Proof. exact prop_retry_sound. Qed.
+Print Assumptions C10_prop_checker_sound.
+
+(** the same for the checker of group "pool" (a pool configuration serving any list of client
+    requests), provided no request hangs - automatic when the pool has a timeout *)
+Theorem C10_pool_checker_sound : forall retry p timeout cb fcodes (xs : list xs_t),
+  (retry = true -> valid p) ->
+  let c := model_pool_case retry p timeout cb fcodes xs in
+  (forall x, In x xs -> po_result (pool_handle (pool_of c) true (model_pool_rq x)) <> PHang) ->
+  prop_pool c = true.
+Proof. exact prop_pool_sound. Qed.
+Print Assumptions C10_pool_checker_sound.
+
+Theorem C10_pool_checker_sound_with_timeout : forall retry p timeout cb fcodes (xs : list xs_t),
+  (retry = true -> valid p) -> 0 < timeout ->
+  prop_pool (model_pool_case retry p timeout cb fcodes xs) = true.
+Proof. exact prop_pool_sound_timeout. Qed.
+Print Assumptions C10_pool_checker_sound_with_timeout.
 
 (** non-vacuity: exponential policy, three failures then success, four attempts allowed:
     waits 2ms*(1-1/4), 3ms*(1-1/4)+draw.., success returned *)
